@@ -31,9 +31,11 @@ def main():
     ap.add_argument("--only", default="")
     ap.add_argument("--neutral", action="store_true")
     ap.add_argument("--tier", default="quick")
+    ap.add_argument("--match", default="", help="regular expression the id must match")
     a = ap.parse_args()
     kind = "neutral" if a.neutral else "seeded"
-    ids = sorted(x for x in os.listdir(os.path.join(ROOT, kind)) if x.startswith(a.only))
+    import re
+    ids = sorted(x for x in os.listdir(os.path.join(ROOT, kind)) if x.startswith(a.only) and re.search(a.match, x))
     bad = []
     with cf.ThreadPoolExecutor(a.jobs) as ex:
         for sid, prop, res, noted in ex.map(lambda s: one(kind, s, a.tier), ids):
